@@ -107,6 +107,13 @@ func (i *interpreter) globalAddr(g *ssa.Global) *value {
 	if g.Pkg != nil {
 		path := g.Pkg.Pkg.Path()
 		if (i.env.opaque(path) || i.env.noInit(path)) && i.env.hasInitializer(g) && !i.env.zeroOK(g) {
+			if msg, ok := i.env.constErrorInit(g); ok {
+				// `var ErrX = errors.New("...")` of a never-initialised package: a fresh sentinel
+				cell := i.makeError(msg, nil)
+				p := &cell
+				i.globals[g] = p
+				return p
+			}
 			panic(engineError("read of package-level variable " + g.String() + " whose package is never initialised by the engine (would be a silent zero)"))
 		}
 	}
@@ -871,6 +878,13 @@ func init() {
 	"os.ErrDeadlineExceeded": func(i *interpreter) value { return i.makeError("i/o timeout", nil) },
 	"os.ErrProcessDone":      func(i *interpreter) value { return i.makeError("os: process already finished", nil) },
 	"os.Args":                func(i *interpreter) value { return []value{"verif"} },
+	"time.utcLoc": func(i *interpreter) value {
+		v := zero(i.namedType("time", "Location")).(structure)
+		v[0] = "UTC"
+		return v
+	},
+	"time.UTC":   func(i *interpreter) value { return i.pkgGlobalAddr("time", "utcLoc") },
+	"time.Local": func(i *interpreter) value { return i.pkgGlobalAddr("time", "utcLoc") },
 	}
 }
 
@@ -884,4 +898,17 @@ func (i *interpreter) pkgGlobal(pkg, name string) value {
 		panic(engineError("no global " + pkg + "." + name))
 	}
 	return *i.globalAddr(g)
+}
+
+
+func (i *interpreter) pkgGlobalAddr(pkg, name string) *value {
+	p := i.prog.ImportedPackage(pkg)
+	if p == nil {
+		panic(engineError("package " + pkg + " not loaded"))
+	}
+	g, ok := p.Members[name].(*ssa.Global)
+	if !ok {
+		panic(engineError("no global " + pkg + "." + name))
+	}
+	return i.globalAddr(g)
 }
